@@ -16,9 +16,9 @@ static void wf_tables(void) {
 		/* element k: absent (sentinel), the k-th basic stub, or a composite whose list is &g_sub[k].  Built by ASSIGNMENT, not by an assumed
 		 * equality on a nondet pointer: CBMC dereferences through the value set, which an assumption does not extend. */
 		if (k == C05_W || nondet_bool()) g_tab[k].rule = NULL;
-		else if (g_tab[k].type == KSI_RULE_TYPE_BASIC) g_tab[k].rule = (const void *)c05l_stub[k];
+		else if (g_tab[k].type == KSI_RULE_TYPE_BASIC) g_tab[k].rule = (const void *)C05L_STUB_AT(k);
 		else g_tab[k].rule = (const void *)&g_sub[k];
-		g_sub[k].type = KSI_RULE_TYPE_BASIC; g_sub[k].rule = k < C05_W ? (const void *)c05l_stub[k] : NULL;      /* sub-lists are non-empty; their contents are never read (contract) */
+		g_sub[k].type = KSI_RULE_TYPE_BASIC; g_sub[k].rule = k < C05_W ? (const void *)C05L_STUB_AT(k) : NULL;      /* sub-lists are non-empty; their contents are never read (contract) */
 	}
 	__CPROVER_assume(g_tab[C05_W].rule == NULL);     /* sentinel */
 	__CPROVER_assume(g_tab[0].rule != NULL);         /* lists are non-empty (job C05.tables checks it for every predefined list) */
